@@ -42,6 +42,10 @@ def features(m, end):
         f.add('heart_after_heart')
     if st['heart_return_to_self']:
         f.add('heart_return_to_self')
+    if st['forward_jumps']:
+        f.add('forward_jump')
+    if st['pops_of_own_values_from_stack0']:
+        f.add('stack0_used_as_data')
     if st['jump_back_over_first_read']:
         f.add('jump_into_prefix_after_read')
     if st['stdin_reads']:
